@@ -12,6 +12,8 @@ use std::collections::BTreeMap;
 pub struct Host {
     pub log: Vec<(String, Vec<MV>)>,
     pub reentries: u64,
+    /// violations observed by the natives themselves (stack balance around run_function)
+    pub errors: Vec<String>,
 }
 
 #[derive(Clone, Debug)]
@@ -36,6 +38,10 @@ pub struct Obs {
     pub globals: BTreeMap<String, MV>,
     pub log: Vec<(String, Vec<MV>)>,
     pub trace: Vec<Trace>,
+    /// Display of the error payload (for checks that look at the message)
+    pub detail: Option<String>,
+    /// violations reported by the harness natives (stack balance)
+    pub host_errors: Vec<String>,
 }
 
 pub fn err_kind_name(e: &ExecutionErrorPayload) -> String {
@@ -86,17 +92,41 @@ fn n_mk_str(vm: &mut Vm<Host>, n: i64) -> NR {
 fn n_fail(_vm: &mut Vm<Host>) -> NR {
     Err(ExecutionErrorPayload::invalid_argument("boom"))
 }
-fn n_call0(vm: &mut Vm<Host>, f: Value) -> NR {
+/// heights of the value stack and the call stack (hook H5)
+fn heights(vm: &Vm<Host>) -> (usize, usize) {
+    use cao_lang::verif::inspect;
+    (inspect::value_stack_len(&vm.runtime_data), inspect::call_stack_len(&vm.runtime_data))
+}
+
+/// after a successful run_function the stacks must be exactly as before the arguments were pushed
+fn reenter(vm: &mut Vm<Host>, who: &str, f: Value, args: &[Value]) -> NR {
     vm.auxiliary_data.reentries += 1;
-    vm.run_function(f)
+    let before = heights(vm);
+    for a in args {
+        vm.stack_push(*a)?;
+    }
+    let r = vm.run_function(f)?;
+    let after = heights(vm);
+    if before != after {
+        vm.auxiliary_data.errors.push(format!(
+            "{}: (value stack, call stack) heights were {:?} before the arguments were pushed and {:?} after run_function returned",
+            who, before, after
+        ));
+    }
+    Ok(r)
+}
+
+fn n_call0(vm: &mut Vm<Host>, f: Value) -> NR {
+    reenter(vm, "call0", f, &[])
+}
+fn n_call2(vm: &mut Vm<Host>, f: Value, x: Value, y: Value) -> NR {
+    reenter(vm, "call2", f, &[x, y])
 }
 fn n_slen(_vm: &mut Vm<Host>, s: &str) -> NR {
     Ok(Value::Integer(s.len() as i64))
 }
 fn n_call1(vm: &mut Vm<Host>, f: Value, x: Value) -> NR {
-    vm.auxiliary_data.reentries += 1;
-    vm.stack_push(x)?;
-    vm.run_function(f)
+    reenter(vm, "call1", f, &[x])
 }
 
 pub fn new_vm(cfg: &RunCfg) -> Vm<'static, Host> {
@@ -112,6 +142,8 @@ pub fn new_vm(cfg: &RunCfg) -> Vm<'static, Host> {
     vm.register_native_function("slen", into_f1(n_slen)).unwrap();
     vm.register_native_function("call0", into_f1(n_call0)).unwrap();
     vm.register_native_function("call1", into_f2(n_call1)).unwrap();
+    vm.register_native_function("call2", into_f3(n_call2)).unwrap();
+    crate::typednatives::register(&mut vm);
     vm
 }
 
@@ -135,11 +167,18 @@ pub fn read_globals<A>(vm: &Vm<A>, prog: &CaoCompiledProgram, names: &[String]) 
 pub fn run_on(vm: &mut Vm<Host>, prog: &CaoCompiledProgram, globals: &[String]) -> Obs {
     vm.auxiliary_data.log.clear();
     let r = vm.run(prog);
-    let (outcome, trace) = match r {
-        Ok(()) => (Ok(()), vec![]),
-        Err(e) => (Err(err_kind_name(&e.payload)), e.trace),
+    let (outcome, trace, detail) = match r {
+        Ok(()) => (Ok(()), vec![], None),
+        Err(e) => (Err(err_kind_name(&e.payload)), e.trace, Some(format!("{}", e.payload))),
     };
-    Obs { outcome, globals: read_globals(vm, prog, globals), log: vm.auxiliary_data.log.clone(), trace }
+    Obs {
+        outcome,
+        globals: read_globals(vm, prog, globals),
+        log: vm.auxiliary_data.log.clone(),
+        trace,
+        detail,
+        host_errors: vm.auxiliary_data.errors.clone(),
+    }
 }
 
 pub fn run_vm(prog: &CaoCompiledProgram, globals: &[String], cfg: &RunCfg) -> Obs {
